@@ -59,13 +59,31 @@ Fixpoint kw_vals (bs : N) (args : env) (l : list (string * farg)) : list (string
   | (k, a) :: l' => match farg_val bs args a with Some v => (k, v) :: kw_vals bs args l' | None => kw_vals bs args l' end
   end.
 
+(* the facade method's own parameters: given by position (here: by name in args), by keyword, or defaulted *)
+Definition fparams (name : string) : list (string * option cval) :=
+  match find_method name with Some m => f_params m | None => [] end.
+
+Fixpoint bind_facade (params : list (string * option cval)) (args : env) (kw : list (string * cval)) : env :=
+  match params with
+  | [] => []
+  | (x, d) :: ps =>
+      match lookup x args, lookup x kw, d with
+      | Some v, _, _ | None, Some v, _ | None, None, Some v => (x, v) :: bind_facade ps args kw
+      | None, None, None => bind_facade ps args kw
+      end
+  end.
+
+Definition passthrough (params : list (string * option cval)) (kw : list (string * cval)) : list (string * cval) :=
+  filter (fun kv => match lookup (fst kv) params with Some _ => false | None => true end) kw.
+
 (* facade.NAME(args by name, keywords kw): the command object handed to device.execute *)
 Definition facade_cmd (set : list opentry) (bs : N) (name : string) (args : env) (kw : list (string * cval)) : result cmd :=
   match resolve set name with
   | None => Raise AttributeError
   | Some (op, c, (_, pos, kws, star)) =>
-      snd (run_ctor no_ext op c init_cdb G0 (pos_vals bs args pos)
-                    (kw_vals bs args kws ++ (if star then kw else []))%list)
+      let fenv := bind_facade (fparams name) args kw in
+      snd (run_ctor no_ext op c init_cdb G0 (pos_vals bs fenv pos)
+                    (kw_vals bs fenv kws ++ (if star then passthrough (fparams name) kw else []))%list)
   end.
 
 (* ---------- the transports ---------- *)
@@ -93,7 +111,7 @@ Definition wire (tr : transport) (c : cmd) : option (bytes * bytes * nat) :=
 Definition fill (space : nat) (resp : bytes) : bytes :=
   (firstn space resp ++ zeros (space - length resp))%list.
 
-Definition CheckCondition := OtherExn "CheckCondition".
+Definition CheckCondition := CheckConditionE [].
 
 Definition stack_call (tr : transport) (bs : N) (t : target) (name : string) (args : env) (kw : list (string * cval))
   : target * result bytes :=
